@@ -912,8 +912,8 @@ Proof.
   rewrite Ey in Hy2. injection Hy2 as <-. repeat split; auto; lia.
 Qed.
 
-(* PARTIAL (the full statement -- for every pair set -- is refuted below): the total weight is preserved when no key
-   of tools.connected's dict sits in its own member set *)
+(* generic step (any dict): the total weight is preserved when no key of the dict sits in its own member set;
+   [impose_collapse_keeps_total] below discharges the premise for every pair selection *)
 Theorem impose_collapse_keeps_total_partial pairs ps x w y wts :
   length x = length w ->
   all_some (map (pair_index (length w)) pairs) = Some ps ->
@@ -993,8 +993,8 @@ Proof.
   - intros e He. apply Hk. now right.
 Qed.
 
-(* PARTIAL: when no member of any set is also a key (a "flat" dict -- what tools.connected returns when it manages to
-   merge every component), every member ends with weight exactly 0 *)
+(* generic step (any dict): when no member of any set is also a key, every member ends with weight exactly 0;
+   [connected_no_key_member] below shows that tools.connected always returns such a dict *)
 Lemma collapse_weights_zero_members d x w :
   (forall e e', In e d -> In e' d -> ~ In (fst e) (snd e')) ->
   forall e k, In e d -> In k (snd e) -> nth k (snd (collapse_weights NumR d x w)) 0 = 0.
@@ -1149,7 +1149,9 @@ Proof.
   intros Hij Hi Hj Hl H.
   assert (Hps : all_some (map (pair_index (length w)) [(Z.of_nat i, Z.of_nat j)]) = Some [(i, j)]).
   { cbn [map all_some]. unfold pair_index. cbn [fst snd]. now rewrite !pyidx_of_nat. }
-  assert (Hc : connected [(i, j)] = [(i, [j])]) by reflexivity.
+  assert (Hc : connected [(i, j)] = [(i, [j])]).
+  { unfold connected. cbn [fold_left]. unfold conn_step. cbn [fst snd find_key].
+    now rewrite (proj2 (Nat.eqb_neq i j) Hij). }
   split; [|split; [|split]].
   - eapply (impose_collapse_zeroes_members_partial _ _ x w y wts Hps); eauto.
     + rewrite Hc. intros e e' [<-|[]] [<-|[]]. cbn [fst snd]. intros [E|[]]. congruence.
@@ -1169,6 +1171,224 @@ Proof.
     rewrite !nth_set_nth_neq by auto. reflexivity.
   - eapply (impose_collapse_keeps_total_partial _ _ x w y wts Hl Hps); eauto.
     rewrite Hc. constructor; [|constructor]. cbn [fst snd]. intros [E|[]]. congruence.
+Qed.
+
+(* ------------------------------------------------------------------ tools.connected (repaired): invariants *)
+Lemma mem_In i s : mem i s = true <-> In i s.
+Proof.
+  unfold mem. rewrite existsb_exists. split.
+  - intros (a & Ha & E). apply Nat.eqb_eq in E. now subst.
+  - intros H. exists i. split; auto. apply Nat.eqb_refl.
+Qed.
+Lemma In_sadd a j v : In a (sadd j v) <-> a = j \/ In a v.
+Proof.
+  unfold sadd. destruct (mem j v) eqn:E.
+  - apply mem_In in E. split; [auto|]. intros [->|H]; auto.
+  - rewrite in_app_iff. simpl. split; [intros [H|[H|[]]]|intros [H|H]]; auto.
+Qed.
+Lemma In_fold_sadd a l v : In a (fold_left (fun s b => sadd b s) l v) <-> In a l \/ In a v.
+Proof.
+  revert v; induction l as [|b l IH]; intros v; simpl; [tauto|].
+  rewrite IH, In_sadd. split; [intros [H|[H|H]]|intros [[H|H]|H]]; auto.
+Qed.
+Lemma find_key_none i d : find_key i d = None -> forall e, In e d -> i <> fst e /\ ~ In i (snd e).
+Proof.
+  induction d as [|[k v] d IH]; simpl; [intros _ e []|].
+  destruct (Nat.eqb i k || mem i v)%bool eqn:E; [discriminate|]. intros H e [<-|He]; auto.
+  apply orb_false_iff in E as [E1 E2]. apply Nat.eqb_neq in E1. simpl. split; auto.
+  intros Hin. apply mem_In in Hin. congruence.
+Qed.
+Lemma find_key_some i d k : find_key i d = Some k -> exists v, In (k, v) d /\ (i = k \/ In i v).
+Proof.
+  induction d as [|[k0 v0] d IH]; simpl; [discriminate|].
+  destruct (Nat.eqb i k0 || mem i v0)%bool eqn:E.
+  - intros H; injection H as <-. exists v0. split; auto. apply orb_true_iff in E as [E|E].
+    + apply Nat.eqb_eq in E. auto.
+    + apply mem_In in E. auto.
+  - intros H. destruct (IH H) as (v & Hv & Hi). exists v. auto.
+Qed.
+Lemma members_in a k d : In a (members k d) -> exists e, In e d /\ fst e = k /\ In a (snd e).
+Proof.
+  unfold members. destruct (find _ d) as [e|] eqn:E; [|intros []].
+  apply find_some in E as [He Hk]. apply Nat.eqb_eq in Hk. eauto.
+Qed.
+
+(* no key of the dict is a member of any group (in particular not of its own) *)
+Definition no_key_member (d : cdict) : Prop := forall e e', In e d -> In e' d -> ~ In (fst e) (snd e').
+
+Lemma nkm_append d i j : no_key_member d -> find_key i d = None -> find_key j d = None -> i <> j ->
+  no_key_member (d ++ [(i, [j])]).
+Proof.
+  intros Inv Hi Hj Hij e e' He He'. apply in_app_iff in He, He'.
+  destruct He as [He|[<-|[]]], He' as [He'|[<-|[]]]; cbn [fst snd].
+  - now apply Inv.
+  - intros [E|[]]. destruct (find_key_none _ _ Hj e He). congruence.
+  - destruct (find_key_none _ _ Hi e' He'). auto.
+  - intros [E|[]]. congruence.
+Qed.
+Lemma nkm_add_member d k j : no_key_member d -> find_key j d = None -> no_key_member (add_member k j d).
+Proof.
+  intros Inv Hj e e' He He'. unfold add_member in *. apply in_map_iff in He as (e0 & <- & He0), He' as (e0' & <- & He0').
+  assert (F : forall t : nat * list nat, fst (if Nat.eqb (fst t) k then (fst t, sadd j (snd t)) else t) = fst t)
+    by (intros t; destruct (Nat.eqb (fst t) k); reflexivity).
+  rewrite F. destruct (Nat.eqb (fst e0') k); cbn [snd].
+  - rewrite In_sadd. intros [E|H]; [|now apply (Inv e0 e0')].
+    destruct (find_key_none _ _ Hj e0 He0). congruence.
+  - now apply Inv.
+Qed.
+Lemma nkm_merge d ki kj : no_key_member d -> no_key_member (merge_groups ki kj d).
+Proof.
+  intros Inv e e' He He'. unfold merge_groups in *. cbv zeta in *.
+  apply in_map_iff in He as (e0 & <- & He0), He' as (e0' & <- & He0').
+  apply filter_In in He0 as [He0 Hk0], He0' as [He0' Hk0'].
+  apply negb_true_iff, Nat.eqb_neq in Hk0.
+  assert (F : forall (t : nat * list nat) u, fst (if Nat.eqb (fst t) ki then (fst t, u) else t) = fst t)
+    by (intros t u; destruct (Nat.eqb (fst t) ki); reflexivity).
+  rewrite F. destruct (Nat.eqb (fst e0') ki); cbn [snd]; [|now apply Inv].
+  rewrite In_sadd, In_fold_sadd. intros [E|[H|H]]; [congruence| |now apply (Inv e0 e0')].
+  apply members_in in H as (e1 & He1 & _ & H). now apply (Inv e0 e1).
+Qed.
+Lemma nkm_step d p : no_key_member d -> no_key_member (conn_step d p).
+Proof.
+  intros Inv. unfold conn_step. cbv zeta. destruct (Nat.eqb (fst p) (snd p)) eqn:E; auto.
+  apply Nat.eqb_neq in E.
+  destruct (find_key (fst p) d) as [ki|] eqn:Ei, (find_key (snd p) d) as [kj|] eqn:Ej.
+  - destruct (Nat.eqb ki kj); auto. now apply nkm_merge.
+  - now apply nkm_add_member.
+  - now apply nkm_add_member.
+  - now apply nkm_append.
+Qed.
+Theorem connected_no_key_member ps : no_key_member (connected ps).
+Proof.
+  unfold connected. assert (G : forall d, no_key_member d -> no_key_member (fold_left conn_step ps d)).
+  { induction ps as [|p ps IH]; intros d H; simpl; auto. apply IH. now apply nkm_step. }
+  apply G. intros e e' [].
+Qed.
+Corollary connected_key_not_in_own_group ps : Forall (fun e => ~ In (fst e) (snd e)) (connected ps).
+Proof. rewrite Forall_forall. intros e He. now apply (connected_no_key_member ps e e). Qed.
+
+(* FULL statements for impose_collapse, for every pair selection *)
+Lemma impose_collapse_all_some pairs x w y wts : impose_collapse NumR pairs x w = Some (y, wts) ->
+  exists ps, all_some (map (pair_index (length w)) pairs) = Some ps.
+Proof.
+  unfold impose_collapse. destruct (mean NumR x _); [|discriminate]. cbn [obind].
+  destruct (all_some _) as [ps|]; [eauto|discriminate].
+Qed.
+Theorem impose_collapse_keeps_total pairs x w y wts :
+  length x = length w -> impose_collapse NumR pairs x w = Some (y, wts) -> Rsum wts = Rsum w.
+Proof.
+  intros Hl H. destruct (impose_collapse_all_some _ _ _ _ _ H) as [ps Hps].
+  eapply impose_collapse_keeps_total_partial; eauto. apply connected_key_not_in_own_group.
+Qed.
+Theorem impose_collapse_zeroes_members pairs ps x w y wts :
+  all_some (map (pair_index (length w)) pairs) = Some ps ->
+  impose_collapse NumR pairs x w = Some (y, wts) ->
+  forall e k, In e (connected ps) -> In k (snd e) -> nth k wts 0 = 0.
+Proof.
+  intros Hps H. eapply impose_collapse_zeroes_members_partial; eauto. apply connected_no_key_member.
+Qed.
+
+(* ---- the groups are pairwise disjoint: keys are unique, and two groups with different keys share no member
+   (together with [no_key_member]: the sets {key} + members of different groups are disjoint) *)
+Definition keys_unique (d : cdict) : Prop := NoDup (map fst d).
+Definition groups_disjoint (d : cdict) : Prop :=
+  forall e e', In e d -> In e' d -> fst e <> fst e' -> forall a, In a (snd e) -> ~ In a (snd e').
+
+Lemma NoDup_snoc {A} (l : list A) a : NoDup l -> ~ In a l -> NoDup (l ++ [a]).
+Proof.
+  induction l as [|b l IH]; intros H Ha; simpl; [constructor; auto; constructor|].
+  inversion H; subst. constructor.
+  - rewrite in_app_iff. intros [F|[F|[]]]; auto. subst. apply Ha. now left.
+  - apply IH; auto. intros F. apply Ha. now right.
+Qed.
+Lemma map_fst_add_member k j d : map fst (add_member k j d) = map fst d.
+Proof.
+  unfold add_member. rewrite map_map. apply map_ext. intros e. destruct (Nat.eqb (fst e) k); reflexivity.
+Qed.
+Lemma map_fst_filter_key kj (d : cdict) :
+  map fst (filter (fun e => negb (Nat.eqb (fst e) kj)) d) = filter (fun k => negb (Nat.eqb k kj)) (map fst d).
+Proof. induction d as [|e d IH]; simpl; auto. destruct (negb (Nat.eqb (fst e) kj)); simpl; now rewrite IH. Qed.
+Lemma NoDup_filter' {A} (f : A -> bool) l : NoDup l -> NoDup (filter f l).
+Proof.
+  induction 1 as [|a l Ha H IH]; simpl; [constructor|]. destruct (f a); auto.
+  constructor; auto. intros F. apply filter_In in F as [F _]. contradiction.
+Qed.
+
+Lemma ku_append d i j : keys_unique d -> find_key i d = None -> keys_unique (d ++ [(i, [j])]).
+Proof.
+  intros K Hi. unfold keys_unique. rewrite map_app. simpl. apply NoDup_snoc; auto.
+  intros F. apply in_map_iff in F as (e & E & He). destruct (find_key_none _ _ Hi e He). congruence.
+Qed.
+Lemma ku_merge d ki kj : keys_unique d -> keys_unique (merge_groups ki kj d).
+Proof.
+  intros K. unfold keys_unique, merge_groups. cbv zeta. rewrite map_map.
+  rewrite (map_ext _ fst) by (intros e; destruct (Nat.eqb (fst e) ki); reflexivity).
+  rewrite map_fst_filter_key. now apply NoDup_filter'.
+Qed.
+
+Lemma gd_append d i j : groups_disjoint d -> find_key j d = None -> groups_disjoint (d ++ [(i, [j])]).
+Proof.
+  intros D Hj e e' He He' Hk a Ha Ha'. apply in_app_iff in He, He'.
+  destruct He as [He|[<-|[]]], He' as [He'|[<-|[]]]; cbn [fst snd] in *.
+  - now apply (D e e' He He' Hk a).
+  - destruct Ha' as [<-|[]]. destruct (find_key_none _ _ Hj e He). auto.
+  - destruct Ha as [<-|[]]. destruct (find_key_none _ _ Hj e' He'). auto.
+  - congruence.
+Qed.
+Lemma gd_add_member d k j : groups_disjoint d -> find_key j d = None -> groups_disjoint (add_member k j d).
+Proof.
+  intros D Hj e e' He He' Hk a Ha Ha'. unfold add_member in *.
+  apply in_map_iff in He as (e0 & <- & He0), He' as (e0' & <- & He0').
+  destruct (find_key_none _ _ Hj e0 He0) as [_ N0]. destruct (find_key_none _ _ Hj e0' He0') as [_ N0'].
+  destruct (Nat.eqb (fst e0) k) eqn:E0, (Nat.eqb (fst e0') k) eqn:E0'; cbn [fst snd] in *.
+  - apply Nat.eqb_eq in E0, E0'. congruence.
+  - apply In_sadd in Ha as [->|Ha]; [contradiction|]. now apply (D e0 e0' He0 He0' Hk a).
+  - apply In_sadd in Ha' as [->|Ha']; [contradiction|]. now apply (D e0 e0' He0 He0' Hk a).
+  - now apply (D e0 e0' He0 He0' Hk a).
+Qed.
+Lemma gd_merge d ki kj v : keys_unique d -> no_key_member d -> groups_disjoint d -> In (kj, v) d ->
+  groups_disjoint (merge_groups ki kj d).
+Proof.
+  intros K Inv D Hkj e e' He He' Hk a Ha Ha'. unfold merge_groups in *. cbv zeta in *.
+  apply in_map_iff in He as (e0 & <- & He0), He' as (e0' & <- & He0').
+  apply filter_In in He0 as [He0 Hk0], He0' as [He0' Hk0'].
+  apply negb_true_iff, Nat.eqb_neq in Hk0. apply negb_true_iff, Nat.eqb_neq in Hk0'.
+  (* a member of the merged set that also sits in an untouched group g (key different from ki and kj): impossible *)
+  assert (X : forall e1 g, In e1 d -> In g d -> fst g <> kj -> fst e1 <> fst g ->
+              In a (sadd kj (fold_left (fun s b => sadd b s) (members kj d) (snd e1))) -> In a (snd g) -> False).
+  { intros e1 g H1 Hg Hgk Hne Hin Hag. apply In_sadd in Hin as [->|Hin].
+    - exact (Inv (kj, v) g Hkj Hg Hag).
+    - apply In_fold_sadd in Hin as [Hin|Hin].
+      + apply members_in in Hin as (e2 & He2 & Hk2 & Hin).
+        assert (Hn : fst e2 <> fst g) by congruence. exact (D e2 g He2 Hg Hn a Hin Hag).
+      + exact (D e1 g H1 Hg Hne a Hin Hag). }
+  destruct (Nat.eqb (fst e0) ki) eqn:E0, (Nat.eqb (fst e0') ki) eqn:E0'; cbn [fst snd] in *.
+  - apply Nat.eqb_eq in E0, E0'. congruence.
+  - exact (X e0 e0' He0 He0' Hk0' Hk Ha Ha').
+  - exact (X e0' e0 He0' He0 Hk0 (not_eq_sym Hk) Ha' Ha).
+  - exact (D e0 e0' He0 He0' Hk a Ha Ha').
+Qed.
+
+Definition conn_inv (d : cdict) : Prop := keys_unique d /\ no_key_member d /\ groups_disjoint d.
+Lemma conn_inv_step d p : conn_inv d -> conn_inv (conn_step d p).
+Proof.
+  intros (K & Inv & D). unfold conn_step. cbv zeta. destruct (Nat.eqb (fst p) (snd p)) eqn:E; [repeat split; auto|].
+  apply Nat.eqb_neq in E.
+  destruct (find_key (fst p) d) as [ki|] eqn:Ei, (find_key (snd p) d) as [kj|] eqn:Ej.
+  - destruct (Nat.eqb ki kj); [repeat split; auto|].
+    destruct (find_key_some _ _ _ Ej) as (v & Hv & _).
+    split; [now apply ku_merge|]. split; [now apply nkm_merge|]. eapply gd_merge; eauto.
+  - split; [unfold keys_unique; now rewrite map_fst_add_member|].
+    split; [now apply nkm_add_member|now apply gd_add_member].
+  - split; [unfold keys_unique; now rewrite map_fst_add_member|].
+    split; [now apply nkm_add_member|now apply gd_add_member].
+  - split; [now apply ku_append|]. split; [now apply nkm_append|now apply gd_append].
+Qed.
+Theorem connected_groups_disjoint ps : conn_inv (connected ps).
+Proof.
+  unfold connected. assert (G : forall d, conn_inv d -> conn_inv (fold_left conn_step ps d)).
+  { induction ps as [|p ps IH]; intros d H; simpl; auto. apply IH. now apply conn_inv_step. }
+  apply G. split; [constructor|]. split; intros e e' [].
 Qed.
 
 (* ------------------------------------------------------------------ non-vacuity of the premises *)
